@@ -1370,3 +1370,126 @@ mod tests {
         };
     }
 }
+
+// Verification hooks (guarded; compiled only with `--cfg mini_moka_verif`).
+#[cfg(mini_moka_verif)]
+impl<K, V, S> BaseCache<K, V, S>
+where
+    K: Hash + Eq + Send + Sync + 'static,
+    V: Clone + Send + Sync + 'static,
+    S: BuildHasher + Clone + Send + Sync + 'static,
+{
+    pub(crate) fn verif_set_clock(&self, clock: &crate::verif::VerifClock) {
+        {
+            let mut exp_clock = self.inner.expiration_clock.write().expect("lock poisoned");
+            *exp_clock = Some(clock.clock());
+            self.inner.has_expiration_clock.store(true, Ordering::SeqCst);
+        }
+        if let Some(hk) = &self.housekeeper {
+            hk.verif_reset(self.inner.current_time_from_expiration_clock());
+        }
+    }
+
+    pub(crate) fn verif_frequency(&self, key: &K) -> u8 {
+        let freq = self.inner.frequency_sketch.read().expect("lock poisoned");
+        freq.frequency(self.inner.hash(key))
+    }
+
+    pub(crate) fn verif_snapshot(
+        &self,
+        clock: &crate::verif::VerifClock,
+    ) -> crate::verif::SyncSnap<K, V>
+    where
+        K: Clone,
+    {
+        use crate::verif::*;
+        let ns = |t: Option<Instant>| t.map(|t| clock.ns(t));
+        let inner = &self.inner;
+        let deqs = inner.deques.lock().expect("lock poisoned");
+        let mut structure_error = None;
+        let mut walk_ao = |d: &Deque<KeyHashDate<K>>| match d.verif_walk() {
+            Ok(v) => v
+                .into_iter()
+                .map(|(addr, e)| AoNodeSnap {
+                    addr,
+                    key: (**e.key()).clone(),
+                    hash: e.hash(),
+                    ts: ns(e.entry_info().last_accessed()),
+                    info: e.entry_info() as *const EntryInfo<K> as usize,
+                })
+                .collect::<Vec<_>>(),
+            Err(e) => {
+                structure_error = Some(e);
+                Vec::new()
+            }
+        };
+        let window = walk_ao(&deqs.window);
+        let probation = walk_ao(&deqs.probation);
+        let protected = walk_ao(&deqs.protected);
+        let write_order = match deqs.write_order.verif_walk() {
+            Ok(v) => v
+                .into_iter()
+                .map(|(addr, e)| WoNodeSnap {
+                    addr,
+                    key: (**e.key()).clone(),
+                    ts: ns(e.verif_entry_info().last_modified()),
+                    info: e.verif_entry_info() as *const EntryInfo<K> as usize,
+                })
+                .collect::<Vec<_>>(),
+            Err(e) => {
+                structure_error = Some(e);
+                Vec::new()
+            }
+        };
+        let entries = inner
+            .cache
+            .iter()
+            .map(|r| {
+                let e = r.value();
+                EntrySnap {
+                    key: (**r.key()).clone(),
+                    value: e.value.clone(),
+                    weight: e.policy_weight(),
+                    last_accessed: ns(e.last_accessed()),
+                    last_modified: ns(e.last_modified()),
+                    ao_node: e.access_order_q_node().map(|n| n.decompose_ptr() as usize),
+                    ao_region: e.access_order_q_node().map(|n| n.decompose_tag()),
+                    wo_node: e.write_order_q_node().map(|n| n.as_ptr() as usize),
+                    admitted: e.is_admitted(),
+                    dirty: e.is_dirty(),
+                    info: &**e.entry_info() as *const EntryInfo<K> as usize,
+                    key_obj: Arc::as_ptr(r.key()) as usize,
+                }
+            })
+            .collect();
+        let mut sketch = inner
+            .frequency_sketch
+            .read()
+            .expect("lock poisoned")
+            .verif_snapshot();
+        sketch.enabled = inner.frequency_sketch_enabled.load(Ordering::Acquire);
+        let (hk_running, hk_sync_after) = match &self.housekeeper {
+            Some(hk) => {
+                let (r, a) = hk.verif_state();
+                (r, ns(a))
+            }
+            None => (false, None),
+        };
+        SyncSnap {
+            entry_count: inner.entry_count.load(),
+            weighted_size: inner.weighted_size.load(),
+            entries,
+            window,
+            probation,
+            protected,
+            write_order,
+            sketch,
+            structure_error,
+            read_q_len: inner.read_op_ch.len(),
+            write_q_len: inner.write_op_ch.len(),
+            valid_after: ns(inner.valid_after()),
+            hk_running,
+            hk_sync_after,
+        }
+    }
+}
